@@ -84,8 +84,14 @@ def descr (l : Line) : IO Unit := do
   let qvar := (Descr.variance xq).getD 0
   let D := maxAbs (xq.map (· - qmean))
   let uv := u * D + ulp (D * D)
-  let jmean := judge gmean qmean (kMean * u)
-  let jvar := if n ≤ 1 then (if gvar == 0 then "ok" else "bad") else judge gvar qvar (kVar * uv)
+  -- N12b: on a sample only a few hundred ulps wide the incremental update loses its increments
+  -- (below half an ulp of m) and the mean stagnates; the a-priori bound is then the spread itself.
+  -- K (model = code) grants that bound; S keeps the k-ulp tolerance and tags the class.
+  let spread := maxOf xq - minOf xq
+  let narrow := n ≥ 2 ∧ spread ≤ 4 * (n : Rat) * u
+  let jmean := judge gmean qmean (kMean * u + (if narrow then spread else 0))
+  let jvar := if n ≤ 1 then (if gvar == 0 then "ok" else "bad")
+    else judge gvar qvar (kVar * uv + (if narrow then 2 * spread * spread else 0))
   let srt := Spec.Stats.sort xq
   let xqs := if sorted then xq else Descr.sortXs xq
   let qpct := pq.map fun p => (Descr.percentile xqs true p).getD 0
@@ -127,7 +133,10 @@ def descr (l : Line) : IO Unit := do
   let tmono := if mono gq then "ok" else "bad"
   let tbound := if gq.all (fun v => minOf xq ≤ v ∧ v ≤ maxOf xq) then "ok" else "bad"
   let tiqr := judge giqr (quantileR8 srt (mkRat 3 4) - quantileR8 srt (mkRat 1 4)) iqrTol
-  IO.println s!"spec {id} mean={tmean} var={tvar} sd={tsd} geo={tgeo} bounds={tbounds} pct={tpct} pmono={tmono} pbound={tbound} iqr={tiqr}"
+  let devOK := F64.isFinite gmean ∧ rabs (toRat gmean - smean) ≤ spread ∧
+    (n ≤ 1 ∨ (F64.isFinite gvar ∧ rabs (toRat gvar - svar) ≤ 2 * spread * spread + kVar * uv))
+  let kfTag := if narrow ∧ (tmean != "ok" ∨ tvar != "ok") ∧ devOK then " kf=N12b" else ""
+  IO.println s!"spec {id} mean={tmean} var={tvar} sd={tsd} geo={tgeo} bounds={tbounds} pct={tpct} pmono={tmono} pbound={tbound} iqr={tiqr}{kfTag}"
 
 /-! ### t-tests -/
 
